@@ -10,6 +10,9 @@ for d in seeded/*/; do
   n=$(basename $d)
   if [ $# -gt 0 ]; then ok=0; for p in "$@"; do [[ $n == $p* ]] && ok=1; done; [ $ok = 1 ] || continue; fi
   ids=""
+  if [ -f $d/meta.json ] && [ "$(jq -r '.neutralised_by_fix // empty' $d/meta.json)" != "" ]; then
+    echo "$n	-	neutralised by fix $(jq -r '.neutralised_by_fix' $d/meta.json) (no longer breaks the property; see meta.json)" | tee -a $tmp; continue
+  fi
   if [ -f $d/meta.json ]; then ids=$(jq -r '.caught_by[]' $d/meta.json | tr '\n' ' ')
   elif [[ $n == revert-* ]]; then ids=$(grep "^fixed: property=" KNOWN_FINDINGS.txt | grep " ${n#revert-} " | sed 's/.*property=\(C[0-9]*\).*/\1/')
   else ids=${M[$n]:-}; fi
